@@ -360,6 +360,8 @@ fn battery() -> Vec<Case> {
     for t in [
         "#nil", "#t", "#f", "#x1F", "#b101", "#o17", "#d10", "#x-1f", "1.5", "1e10", "1.5e-10", "-1.5E+3", "#\\space", "#\\newline", "#\\x41", "#\\delete",
         "#\\λ", "\"a\\x41;b\"", "\"a\\nb\"", "\"é\"", "#u8(1 2 3)", "#vu8(255)", "'a", "`(a ,b ,@c)", "λx", "(a . b)", "#(1 2)", "#:key", "(1 . (2 3))",
+        // byte vectors whose octets use every number spelling
+        "#u8(#x1F #b101 #o17 #d9)", "(a #u8(7 #xff))", "#vu8(#xFF)", "#u8(+5 007 #x-0)", "#(#u8(#b1))",
         // dots, signs and other one-character tokens at every position of a list
         "(.a)", "(... b)", "( .a b)", "'(.x)", "(a (.b))", "(.5 a)", "(a .b)", "(a . .b)", "(a ... . ...)", "#(.a)", "(- a)", "(+ . -)", "(-a . +b)", "(a . (.b))", "(.a . b)", "((.a))",
     ] {
